@@ -79,6 +79,7 @@ func RunCheck(prop, tier string, procs int, budget time.Duration) int {
 		}
 	}
 	deadline := time.Now().Add(budget)
+	pool.Deadline = deadline.Add(30 * time.Second)
 	rep.Assumptions = []string{"SQLite, database/sql, Go runtime, otto trusted", "fixed small alphabets of keys, bodies, xattr names, expiries, CAS tokens", "scheduling points at synchronisation operations only (mutex, cond, channel receive, goroutine start/exit, timer release); execution inside one SQLite call is atomic"}
 	known := false
 	if strings.HasPrefix(prop, "sched:") {
